@@ -39,9 +39,18 @@ func (d FileDisk) ReadTo(a uint64, buf Block) {
 	if a >= d.numBlocks {
 		panic(fmt.Errorf("out-of-bounds read at %v", a))
 	}
-	_, err := unix.Pread(d.fd, buf, int64(a*BlockSize))
-	if err != nil {
-		panic("read failed: " + err.Error())
+	// a read may return fewer bytes than requested without an error; reaching
+	// the end of the file before the block is complete is a failure
+	off := int64(a * BlockSize)
+	for n := 0; n < len(buf); {
+		k, err := unix.Pread(d.fd, buf[n:], off+int64(n))
+		if err != nil {
+			panic("read failed: " + err.Error())
+		}
+		if k == 0 {
+			panic(fmt.Errorf("read failed: short read of block %v (%d bytes)", a, n))
+		}
+		n += k
 	}
 }
 
@@ -58,9 +67,18 @@ func (d FileDisk) Write(a uint64, v Block) {
 	if a >= d.numBlocks {
 		panic(fmt.Errorf("out-of-bounds write at %v", a))
 	}
-	_, err := unix.Pwrite(d.fd, v, int64(a*BlockSize))
-	if err != nil {
-		panic("write failed: " + err.Error())
+	// a write may be short without an error (file size limit, full disk); the
+	// rest is retried so that the failure surfaces
+	off := int64(a * BlockSize)
+	for n := 0; n < len(v); {
+		k, err := unix.Pwrite(d.fd, v[n:], off+int64(n))
+		if err != nil {
+			panic("write failed: " + err.Error())
+		}
+		if k == 0 {
+			panic(fmt.Errorf("write failed: short write of block %v (%d bytes)", a, n))
+		}
+		n += k
 	}
 }
 
